@@ -10,6 +10,7 @@ from __future__ import annotations
 import ast
 import asyncio
 import copy
+import random
 import gc
 import json
 import re
@@ -1249,6 +1250,32 @@ def defect_probes():
 # case stream
 # ==================================================================================================
 
+def retyped_override_cases(rng, n):
+    """FunctionTests against the fixtures whose prepare merges `spec.inputs` with every case's `inputOverrides`
+    (`_check_for_resource_template_ref`: a ResourceFunction with a computed resourceTemplateRef.name), where the
+    overrides RETYPE keys of the base inputs: map over scalar / list / null, scalar over map, map over map to
+    depth 3, the same key retyped differently by consecutive cases.  (Stream added for seeded C20-20.)"""
+    shapes = [lambda d: "plain", lambda d: 7, lambda d: None, lambda d: [1, {"size": "l"}], lambda d: True,
+              lambda d: {}, lambda d: {"size": "xl"}, lambda d: {"size": {"w": 1}},
+              lambda d: ({"size": shapes[rng.randrange(len(shapes))](d + 1)} if d < 3 else "deep")]
+    keys = ["a", "tname", "flavor", ".t", ".n", "name"]
+    for i in range(n):
+        fn = rng.choice(["rf-tmpl", "rf-tmpl", "rf-odd", "rf-tmpl-macro", "rf-tmpl-static", "rf-ok"])
+        ks = rng.sample(keys, rng.randint(1, 4))
+        base = {k: rng.choice(shapes)(0) for k in ks}
+        if rng.random() < 0.7:
+            base.setdefault("tname", "tmpl-ok")
+        cases = []
+        for j in range(rng.randint(1, 3)):
+            ov = {k: rng.choice(shapes)(0) for k in rng.sample(ks, rng.randint(1, len(ks)))}
+            tc = {"inputOverrides": ov, "expectOutcome": {"ok": {}}}
+            if rng.random() < 0.3:
+                tc["variant"] = True
+            cases.append(tc)
+        yield {"kind": "FunctionTest", "stream": "ft-retyped",
+               "spec": {"functionRef": {"kind": "ResourceFunction", "name": fn}, "inputs": base, "testCases": cases}}
+
+
 def gen_cases(ctx: Ctx, schemas):
     """yields dict(kind, spec, stream)."""
     rng = ctx.rng
@@ -1286,6 +1313,8 @@ def gen_cases(ctx: Ctx, schemas):
 
     scale = 1 if ctx.quick() else 12
     n_valid, n_cel, n_mut = 60 * scale, 60 * scale, 45 * scale
+    # own PRNG (derived from the run's seed) so that adding this stream leaves the other streams of a seed unchanged
+    yield from retyped_override_cases(random.Random(f"ft-retyped-{ctx.seed}"), 80 * scale)
     for i in range(150 * scale):
         yield {"kind": "Workflow", "spec": workflow_refs_spec(rng), "stream": "wf-refs"}
     for kind in KINDS:
